@@ -19,6 +19,7 @@ func genErrFmt(repo string) string {
 	g.strList("fail_events", "`(*app.Context).fail`", g.events(g.fn(app, "Context", "fail")))
 	g.strList("Fail_events", "`(*app.Context).Fail`", g.events(g.fn(app, "Context", "Fail")))
 	g.strList("FailStatus_events", "`(*app.Context).FailStatus`", g.events(g.fn(app, "Context", "FailStatus")))
+	g.strList("MustBind_events", "`(*app.Context).MustBind`", g.events(g.fn(app, "Context", "MustBind")))
 	g.strList("selectFormatter_events", "`(*app.Context).selectFormatter`", g.events(g.fn(app, "Context", "selectFormatter")))
 
 	// the status helpers: every method of Context whose whole body is `c.FailStatus(http.StatusX, err)`
